@@ -51,7 +51,7 @@ type known struct {
 
 // overlayProps lists the properties whose harness is built with the
 // instrumentation overlay (scheduler yield points at synchronisation sites).
-var overlayProps = map[string]bool{"C18": true}
+var overlayProps = map[string]string{"C18": "sched", "C08": "work"}
 
 // raceProps lists the properties with a race sub-check (package racecheck).
 var raceProps = map[string]bool{"C18": true}
@@ -207,20 +207,23 @@ func modfileArgs() []string {
 	return []string{"-modfile=" + alt}
 }
 
-func build(prop string, overlay bool) string {
+func build(prop string, overlay string) string {
 	dir := filepath.Join(root, ".build", prop)
 	os.MkdirAll(dir, 0o755)
 	bin := filepath.Join(dir, "sim.test")
 	args := append([]string{"test", "-c", "-o", bin}, modfileArgs()...)
-	if overlay {
+	if overlay != "" {
 		ov := filepath.Join(dir, "overlay.json")
-		cmd := exec.Command(filepath.Join(root, "bin", "instr"), "-repo", repoDir(), "-out", filepath.Join(dir, "overlay"), "-json", ov)
+		cmd := exec.Command(filepath.Join(root, "bin", "instr"), "-mode", overlay, "-repo", repoDir(), "-out", filepath.Join(dir, "overlay"), "-json", ov)
 		cmd.Stderr = os.Stderr
 		cmd.Stdout = os.Stderr
 		if err := cmd.Run(); err != nil {
 			fatal2("instrumentation failed: %v", err)
 		}
-		args = append(args, "-overlay", ov, "-tags", "simsched")
+		args = append(args, "-overlay", ov)
+		if overlay == "sched" {
+			args = append(args, "-tags", "simsched")
+		}
 	}
 	args = append(args, "./harness")
 	cmd := exec.Command("go1.26.8", args...)
